@@ -112,9 +112,17 @@ func (ic *incorp) deps1(v ssa.Value) depSet {
 	case *ssa.SliceToArrayPointer:
 		out.add(ic.deps(x.X))
 	case *ssa.FieldAddr:
-		out.add(ic.deps(x.X))
+		if _, isAlloc := x.X.(*ssa.Alloc); isAlloc {
+			out.add(ic.deps(x.X))
+		} else {
+			for d := range ic.deps(x.X) {
+				out[d+"."+fieldVar(x.X.Type(), x.Field).Name()] = true
+			}
+		}
 	case *ssa.Field:
-		out.add(ic.deps(x.X))
+		for d := range ic.deps(x.X) {
+			out[d+"."+fieldVar(x.X.Type(), x.Field).Name()] = true
+		}
 	case *ssa.IndexAddr:
 		out.add(ic.deps(x.X))
 	case *ssa.Index:
